@@ -104,7 +104,7 @@ def expr_runs(tier):
         return [dict(table="T8", n=1, maxun=2), dict(table="T8", n=2, maxun=2), dict(table="T8", n=3, maxun=1),
                 dict(table="T5", n=4, maxun=0, wc=False)]
     return [dict(table="T8", n=1, maxun=3), dict(table="T8", n=2, maxun=2), dict(table="T8", n=3, maxun=2),
-            dict(table="T5", n=4, maxun=1, wc=False)]
+            dict(table="T5", n=4, maxun=1, wc=False), dict(table="T3", n=5, maxun=0, wc=False)]
 
 
 def model_runs(tier):
@@ -112,7 +112,7 @@ def model_runs(tier):
         return [dict(table="T8", n=2, maxun=2, ns=4), dict(table="T8", n=3, maxun=1, ns=16),
                 dict(table="T5", n=4, maxun=0, ns=12, wc=False)]
     return [dict(table="T8", n=2, maxun=2, ns=4), dict(table="T8", n=3, maxun=2, ns=16),
-            dict(table="T5", n=4, maxun=1, ns=16, wc=False)]
+            dict(table="T5", n=4, maxun=1, ns=16, wc=False), dict(table="T3", n=5, maxun=0, ns=12, wc=False)]
 
 
 def flat_model(v, pid, tier, invariants):
@@ -223,7 +223,7 @@ def deep_model(v, pid, tier, invariants):
     n = 0
     for r in model_runs(tier):
         n += mc_shards(v, "MC_Deep", {"T": ("<-", r["table"]), "NLeaves": r["n"], "MaxUn": r["maxun"],
-                                      "WithConst": r.get("wc", True), "BumpGuard": True, "DeclineEq": True},
+                                      "WithConst": r.get("wc", True), "BumpGuard": True, "FoldRule": "local"},
                        invariants, r["ns"], f"{pid}/mcdeep-{r['table']}-n{r['n']}")
     v.notes.append(f"MC_Deep: implementation-shaped model of the deep parser, DeepEx::compile (lift_nodes, decline mask), "
                    f"flatten_vecs and flatex_to_deepex refines the reference on {n} trees x renderings ({invariants})")
